@@ -40,6 +40,10 @@ type AFrame struct {
 	Mut  string `json:"mut"` // first same pixel rect big alphaonly semi small
 	Dur  int    `json:"dur_ms"`
 	Seed uint64 `json:"seed"`
+	// Type: how the picture is handed to AddFrame: "" / nrgba (origin 0), sub (NRGBA view
+	// with non-zero origin and larger stride), rgba / rgbasub (premultiplied storage; only
+	// used when every alpha is 0 or 255), nrgba64
+	Type string `json:"type,omitempty"`
 }
 
 func (a AnimSpec) String() string {
@@ -88,6 +92,9 @@ func GenAnimSpec(r *RNG, maxSide, maxFrames int, lossless bool, alphaPct int) An
 			f.Mut = "first"
 		} else {
 			f.Mut = animMuts[r.Intn(len(animMuts))]
+		}
+		if r.Pct(30) {
+			f.Type = r.PickS("sub", "rgba", "rgbasub", "nrgba64")
 		}
 		a.Frames = append(a.Frames, f)
 	}
@@ -216,8 +223,21 @@ func (a AnimSpec) Canvases() (inputs []image.Image, canvases []*image.NRGBA) {
 			copy(c.Pix, cur.Pix)
 			input = c
 		}
+		input = wrapAnimInput(input.(*image.NRGBA), f.Type, r)
 		inputs = append(inputs, input)
-		canvases = append(canvases, cur)
+		// the canvas this input means: the picture read as non-premultiplied 8-bit RGBA
+		// (the standard library's colour conversion, which is not exact for 16-bit
+		// pictures with very low alpha), placed at (0,0) on a transparent canvas
+		conv := ToNRGBA(input)
+		canvas := image.NewNRGBA(image.Rect(0, 0, w, h))
+		for y := 0; y < conv.Rect.Dy() && y < h; y++ {
+			n := conv.Rect.Dx()
+			if n > w {
+				n = w
+			}
+			copy(canvas.Pix[y*canvas.Stride:y*canvas.Stride+4*n], conv.Pix[y*conv.Stride:y*conv.Stride+4*n])
+		}
+		canvases = append(canvases, canvas)
 		prev = cur
 	}
 	return
@@ -465,4 +485,64 @@ func warmUpExtra() {
 	if res.Data != nil {
 		Playback(res.Data, true)
 	}
+}
+
+// wrapAnimInput re-houses the same pixels in another storage layout / image type.
+func wrapAnimInput(p *image.NRGBA, typ string, r *RNG) image.Image {
+	w, h := p.Rect.Dx(), p.Rect.Dy()
+	binary := true
+	for i := 3; i < len(p.Pix); i += 4 {
+		if p.Pix[i] != 0 && p.Pix[i] != 255 {
+			binary = false
+			break
+		}
+	}
+	switch typ {
+	case "sub":
+		ox, oy := 1+r.Intn(4), 1+r.Intn(4)
+		big := image.NewNRGBA(image.Rect(0, 0, w+ox+2, h+oy+1))
+		for i := range big.Pix {
+			big.Pix[i] = uint8(r.Next())
+		}
+		for y := 0; y < h; y++ {
+			copy(big.Pix[(y+oy)*big.Stride+ox*4:(y+oy)*big.Stride+(ox+w)*4], p.Pix[y*p.Stride:y*p.Stride+w*4])
+		}
+		return big.SubImage(image.Rect(ox, oy, ox+w, oy+h))
+	case "rgba", "rgbasub":
+		if !binary {
+			return p
+		}
+		ox, oy := 0, 0
+		if typ == "rgbasub" {
+			ox, oy = 1+r.Intn(4), 1+r.Intn(4)
+		}
+		big := image.NewRGBA(image.Rect(0, 0, w+ox+ox/2, h+oy))
+		for i := range big.Pix {
+			big.Pix[i] = uint8(r.Next()) | 0x80
+		}
+		for i := 3; i < len(big.Pix); i += 4 {
+			big.Pix[i] = 255
+		}
+		for y := 0; y < h; y++ {
+			for x := 0; x < w; x++ {
+				c := p.NRGBAAt(x, y)
+				if c.A == 0 {
+					big.SetRGBA(x+ox, y+oy, color.RGBA{})
+				} else {
+					big.SetRGBA(x+ox, y+oy, color.RGBA{c.R, c.G, c.B, 255})
+				}
+			}
+		}
+		return big.SubImage(image.Rect(ox, oy, ox+w, oy+h))
+	case "nrgba64":
+		out := image.NewNRGBA64(p.Rect)
+		for y := 0; y < h; y++ {
+			for x := 0; x < w; x++ {
+				c := p.NRGBAAt(x, y)
+				out.SetNRGBA64(x, y, color.NRGBA64{uint16(c.R) * 0x101, uint16(c.G) * 0x101, uint16(c.B) * 0x101, uint16(c.A) * 0x101})
+			}
+		}
+		return out
+	}
+	return p
 }
